@@ -327,6 +327,7 @@ def run(repo, rep):
     alg.reset()
     common.state_rule(repo, rep, [('geodepy.convert', 'psfandgridconv'), ('geodepy.convert', 'geo2grid'), ('geodepy.convert', 'grid2geo')])
     rep.trust('sv/alg.py exact normal forms; generator independence modulo the rewrite rules applied')
+    common.tm_division_rules(repo, rep)
     rep.trust('reference formulas: Karney-Krueger equations 26-28 (Deakin), sign convention grid bearing = azimuth + convergence')
     tr = ThreadRule(repo, _Only(rep, 'psfandgridconv'))
     for fname in ('geo2grid', 'grid2geo'):
